@@ -138,8 +138,11 @@ func (s *store) GetPartitions(ctx context.Context, start, end []byte) (partition
 				partitions[idx].Start = start
 			}
 
-			if len(reg.Meta.EndKey) != 0 {
+			if len(reg.Meta.EndKey) != 0 && len(end) != 0 {
 				partitions[idx].End = minBytes(reg.Meta.EndKey, end)
+			} else if len(reg.Meta.EndKey) != 0 {
+				// an empty end means "no upper bound": it does not clip the region
+				partitions[idx].End = reg.Meta.EndKey
 			} else {
 				partitions[idx].End = end
 			}
